@@ -134,7 +134,8 @@ pub fn c10_sanity() -> i32 {
         for code in 0..total {
             let mut c = code;
             let ids: Vec<u32> = (0..n).map(|_| { let d = (c % 5) as u32; c /= 5; d }).collect();
-            let mut reg = registry((0..n).map(|i| ty(&format!("m::T{i}"), vec![], composite(vec![]))).collect());
+            // entry 0 is path-less (a primitive), the others are namespaced structs
+            let mut reg = registry((0..n).map(|i| if i == 0 { ty("", vec![], prim(TypeDefPrimitive::U8)) } else { ty(&format!("m::T{i}"), vec![], composite(vec![])) }).collect());
             for (i, id) in ids.iter().enumerate() { reg.types[i].id = *id; }
             let consistent = ids.iter().enumerate().all(|(i, id)| *id == i as u32);
             tried += 1;
